@@ -130,9 +130,39 @@ class Normalizer:
                     return False
         return True
 
+    def _ctor(self, name: str) -> Optional[FD]:
+        """constructor of a package class as a pseudo function: explicit __init__ or the field list of a dataclass"""
+        if name in getattr(self, '_ctor_cache', {}):
+            return self._ctor_cache[name]
+        self._ctor_cache = getattr(self, '_ctor_cache', {})
+        res = None
+        for modname, tree in self.trees.items():
+            for st in tree.body:
+                if isinstance(st, ast.ClassDef) and st.name == name:
+                    init = next((m for m in st.body if isinstance(m, ast.FunctionDef) and m.name == '__init__'), None)
+                    if init is not None:
+                        fd = FD(f"{modname}.{name}.__init__", init, modname, name, 'ctor')
+                        fd.params = fd.params[1:]
+                        res = fd
+                    elif any('dataclass' in ast.unparse(d) for d in st.decorator_list):
+                        fields = [m for m in st.body if isinstance(m, ast.AnnAssign) and isinstance(m.target, ast.Name)]
+                        fake = ast.parse("def __init__(" + ", ".join(
+                            f.target.id + ("=None" if f.value is not None else "") for f in fields) + "): pass").body[0]
+                        fd = FD(f"{modname}.{name}.__init__", fake, modname, name, 'ctor')
+                        for f_ in fields:
+                            if f_.value is not None:
+                                fd.defaults[f_.target.id] = f_.value
+                        res = fd
+        self._ctor_cache[name] = res
+        return res
+
     def resolve(self, call: ast.Call, modname: str, cls: Optional[str], self_name: Optional[str]) -> Optional[Tuple[FD, Optional[ast.AST]]]:
         """(callee, receiver expression or None) for syntactically resolvable calls"""
         f = call.func
+        if isinstance(f, ast.Name) and f"{modname}.{f.id}" not in self.funcs:
+            c = self._ctor(f.id)
+            if c is not None:
+                return c, None
         if isinstance(f, ast.Name):
             fd = self.funcs.get(f"{modname}.{f.id}")
             if fd is None:
@@ -276,6 +306,10 @@ class Normalizer:
         ren = {n: n + tag for n in locals_}
         body = [s for s in copy.deepcopy(fd.node.body) if not (isinstance(s, ast.Expr) and isinstance(s.value, ast.Constant))]
 
+        caller_result = result
+        if result:
+            result = f"__res{tag}"      # placeholder, so that a helper local of the same name is not confused with the target
+
         def conv(stmts) -> Tuple[List[ast.stmt], bool]:
             out: List[ast.stmt] = []
             for i, st in enumerate(stmts):
@@ -318,6 +352,11 @@ class Normalizer:
             full[k] = ast.Name(id=v, ctx=ast.Load())
         tr = _Subst(full, rename_stores=ren)
         new_body = [tr.visit(s) for s in new_body]
+        if caller_result:
+            for s_ in new_body:
+                for n in ast.walk(s_):
+                    if isinstance(n, ast.Name) and n.id == result:
+                        n.id = caller_result
         block = pre + new_body
         for s in block:
             for n in ast.walk(s):
